@@ -112,6 +112,12 @@ var argKinds = []argv{
 	{kind: "num", num: "9007199254740993", expr: "(9007199254740993)"},
 	{kind: "num", num: "0.0000000000000000000005", expr: "(5e-22)"},
 	{kind: "num", num: "0.000000000000000000000000000000002", expr: "(2e-33)"},
+	{kind: "arr", expr: "rc.nilsl"},  // a nil Go slice reached through a member: an empty array
+	{kind: "arr", expr: "rc.nilany"}, // the same for []interface{}(nil)
+}
+
+type c11Rec struct {
+	Tags []string
 }
 
 const (
@@ -487,7 +493,8 @@ func judgeCall(c CallCase) *eng.Fail {
 		return eng.F("C11/parse", "%s: %v", src, err)
 	}
 	invocations = invocations[:0]
-	data := map[string]interface{}{"host": makeHost(c.Fixed, c.Tail, c.Ctx, c.Ret), "mp": c11Map, "tm": c11Time}
+	data := map[string]interface{}{"host": makeHost(c.Fixed, c.Tail, c.Ctx, c.Ret), "mp": c11Map, "tm": c11Time,
+		"rc": map[string]interface{}{"nilsl": []string(nil), "nilany": []interface{}(nil)}}
 	r := formula.NewRunner()
 	r.SetThis(data)
 	o := safeResolve(r, c11Ctx, p.Expression)
@@ -634,6 +641,37 @@ func judgeErrSites(c ErrCase) *eng.Fail {
 		}
 		if strings.Join(log, ",") != want {
 			return eng.F("C11/argument-order", "hv(gfun(1), lfun()...) with gfun failing=%v: invocations %v, expected %s (arguments are evaluated left to right, the spread operand last)", c.FailG, log, want)
+		}
+	}
+	// nested calls: every call receives its own arguments, also on a runner that has evaluated before
+	if !c.FailF && !c.FailG && !c.FailH {
+		var seen []string
+		nd := map[string]interface{}{
+			"pair": func(a, b string) (string, error) { seen = append(seen, "pair("+a+","+b+")"); return a + b, nil },
+			"wrap": func(a string) (string, error) { seen = append(seen, "wrap("+a+")"); return "<" + a + ">", nil },
+			"tri":  func(a, b, c interface{}) (string, error) { seen = append(seen, "tri("+show(a)+","+show(b)+","+show(c)+")"); return "t", nil },
+		}
+		r := formula.NewRunner()
+		r.SetThis(nd)
+		for round, src := range []string{"pair('x', wrap('y'))", "pair('x', wrap('y'))", "upper('q') + pair('x', wrap('y'))", "tri(1, pair('a', wrap('b')), wrap('c'))", "pair(wrap('m'), wrap('n'))"} {
+			seen = nil
+			p, err := cachedParse(src)
+			if err != nil {
+				return eng.F("C11/parse", "%s: %v", src, err)
+			}
+			o := safeResolve(r, bg, p.Expression)
+			if o.panicked || o.err != nil {
+				return eng.F("C11/eval", "%s: %v %s", src, o.err, o.panicMsg)
+			}
+			want := map[string]string{
+				"pair('x', wrap('y'))":                      "wrap(y) pair(x,<y>)",
+				"upper('q') + pair('x', wrap('y'))":         "wrap(y) pair(x,<y>)",
+				"tri(1, pair('a', wrap('b')), wrap('c'))":   "wrap(b) pair(a,<b>) wrap(c) tri(num:1,str:\"a<b>\",str:\"<c>\")",
+				"pair(wrap('m'), wrap('n'))":                "wrap(m) wrap(n) pair(<m>,<n>)",
+			}[src]
+			if got := strings.Join(seen, " "); got != want {
+				return eng.F("C11/nested-arguments", "evaluation %d on one runner, %s: host calls [%s], expected [%s]", round+1, src, got, want)
+			}
 		}
 	}
 	// converting an argument for one parameter must not change the value other parameters / later reads see
